@@ -98,7 +98,7 @@ type trzszTransfer struct {
 	fileNameMap      map[int]string
 	windowsProtocol  bool
 	flushInTime      bool
-	bufInitWG        sync.WaitGroup
+	bufInitAck       chan struct{}
 	bufInitPhase     atomic.Bool
 	bufferSize       atomic.Int64
 	savedSteps       atomic.Int64
@@ -149,6 +149,7 @@ func newTransfer(writer io.Writer, stdinState *term.State, flushInTime bool, log
 		logger: logger,
 		bgChan: make(chan struct{}, 1),
 	}
+	t.bufInitAck = make(chan struct{}, 1)
 	t.bufInitPhase.Store(true)
 	t.bufferSize.Store(10240)
 	return t
